@@ -21,6 +21,18 @@ chk("C12",
     "TLA+ spec + TLC exhaustive model checking; spec->impl behaviour replay; impl->spec trace validation",
     "DESIGN.md §5 C12")
 
+chk("C16",
+    "TLC proves the UTF-8 automaton equal to the declarative Unicode Table 3-7 definition on all byte-class strings up to "
+    "length 4 (quick) / 5 (thorough) and that the classes partition 0..255, then emits the transition table, which the harness "
+    "executes as data against the exported diplomat_is_str over ALL byte strings of length <=3, ALL 4-byte strings with lead "
+    "F0..F7 and seeded near-valid mutations. SliceView.tla models export/NULL/deref/import/drop of the five view kinds; every "
+    "TLC-enumerated behaviour is replayed on the real runtime types for 12 element types with pointer class, length, contents "
+    "and allocation-release counts compared after each step. Two negative models must be refuted.",
+    "Trusts TLC, rustc, Unicode Table 3-7 as transcribed, the quarantining allocator of the harness. UB checks of the standard "
+    "library (debug assertions on) turn invalid from_raw_parts calls into observable aborts.",
+    "TLA+ spec + TLC exhaustive model checking; spec-emitted table executed against the implementation; behaviour replay",
+    "DESIGN.md §5 C16")
+
 NOT_YET = {}
 
 
